@@ -24,6 +24,7 @@ CONST_SWAPS = [('use-local', 'use-remote'), ('--ours', '--theirs'), ('local_then
 METHOD_SWAPS = {'local': 'remote', 'remote': 'local', 'local_then_remote': 'remote_then_local',
                 'remote_then_local': 'local_then_remote'}
 EXEMPT_TEST_CONSTS = {'union'}
+EQUALITY_HELPERS = {'strict_equal', 'compare_strict'}      # two-argument, symmetric, type-strict ==
 CHUNK_RE = re.compile(r'^[APRaprc]*/[APRaprc]*$')
 
 
@@ -118,6 +119,12 @@ class Canon(ast.NodeTransformer):
             return ast.copy_location(ast.Name(id=self.unify[node.id], ctx=node.ctx), node)
         return node
 
+    def visit_Call(self, node):
+        if isinstance(node.func, ast.Name) and node.func.id in EQUALITY_HELPERS and len(node.args) == 2 and not node.keywords:
+            return self.visit(ast.Compare(left=node.args[0], ops=[ast.Eq()], comparators=[node.args[1]]))
+        self.generic_visit(node)
+        return node
+
     def visit_Compare(self, node):
         self.generic_visit(node)
         if len(node.ops) == 1 and isinstance(node.ops[0], (ast.Eq, ast.NotEq, ast.Is, ast.IsNot)):
@@ -200,6 +207,8 @@ class Mirror:
         unify = dict(unify_in)
         out = []
         for test, body, node in arms:
+            if isinstance(test, ast.Call) and isinstance(test.func, ast.Name) and test.func.id in EQUALITY_HELPERS and len(test.args) == 2:
+                test = ast.copy_location(ast.Compare(left=test.args[0], ops=[ast.Eq()], comparators=[test.args[1]]), test)
             if any(isinstance(c, ast.Constant) and c.value in EXEMPT_TEST_CONSTS for c in ast.walk(test)):
                 continue        # named exemption: local-before-remote at two-sided insertions is intentional
             tuni = dict(unify)
